@@ -100,7 +100,7 @@ def backend_reads_param(fx, callee, arg_index):
     return bool(cf.reads(p))
 
 
-def check_operation(ctx, fx, fn, enum_id, field_suffix, rule, key_params=None, require_key=True):
+def check_operation(ctx, fx, fn, enum_id, field_suffix, rule, key_params=None, require_key=True, panic_only=False):
     adt = fx.adts.get(enum_id)
     variants = {int(v["discr"]) if v["discr"] is not None else i: v["name"] for i, v in enumerate(adt["variants"])}
     stems = {d: snake(n) for d, n in variants.items()}
@@ -127,6 +127,8 @@ def check_operation(ctx, fx, fn, enum_id, field_suffix, rule, key_params=None, r
                                  % (" and the key" if key_params else "")))
             elif explicit and not reads_payload and not uses_key:
                 problems.append(("stub-arm", "arm ignores the variant's storage%s" % (" and the key" if key_params else "")))
+            if panic_only:
+                problems = []
             if diverges and not problems:
                 problems.append(("stub-arm", "arm panics (unimplemented)"))
             hard = []
@@ -137,6 +139,8 @@ def check_operation(ctx, fx, fn, enum_id, field_suffix, rule, key_params=None, r
                     hard.append(("mismatch", "routes to %s (stem of variant %s)" % (cname, other[0])))
                 if ki is not None and not backend_reads_param(fx, callee, ki):
                     hard.append(("stub-backend", "back end %s never reads the key it is given" % cname))
+            if panic_only:
+                hard = []
             per_variant.setdefault(d, []).append(
                 {"explicit": explicit, "reads": reads_payload, "uses_key": uses_key, "soft": problems, "hard": hard,
                  "backends": [c.rsplit("::", 1)[-1] for c, _ in callees][:4]})
@@ -158,7 +162,7 @@ def check_operation(ctx, fx, fn, enum_id, field_suffix, rule, key_params=None, r
     return n
 
 
-def run(ctx, fx, file, enum_id, field_suffix, rule="R-VARIANT", only=None, key_param_filter=None):
+def run(ctx, fx, file, enum_id, field_suffix, rule="R-VARIANT", only=None, key_param_filter=None, panic_only=False):
     n = 0
     ops = []
     for fid in fx.fn_ids(file):
@@ -167,7 +171,7 @@ def run(ctx, fx, file, enum_id, field_suffix, rule="R-VARIANT", only=None, key_p
         if only is not None and not only(fid):
             continue
         fn = Fn(fx.raw(fid))
-        k = check_operation(ctx, fx, fn, enum_id, field_suffix, rule)
+        k = check_operation(ctx, fx, fn, enum_id, field_suffix, rule, panic_only=panic_only)
         if k:
             ops.append(fid)
             ctx.analysed_fns.add(fid)
